@@ -7,6 +7,7 @@ import GoBT.Driver.Json
 import GoBT.Driver.Addr
 import GoBT.Driver.Interp
 import GoBT.Driver.Ord
+import GoBT.Driver.Conc
 open GoBT GoBT.Driver
 
 def dispatch (op : String) (args : List String) (impl : String) : Answer :=
@@ -49,6 +50,7 @@ def dispatch (op : String) (args : List String) (impl : String) : Answer :=
   | "IX.total" => ixTotal impl
   | "IX.dbg" => ixDbg args impl
   | "C04.mut" => c04Mut args impl
+  | "C18.race" => c18Race args impl
   | "C20.list" => c20List args impl
   | "C20.bid" => c20Bid args impl
   | "C20.insc" => c20Insc args impl
